@@ -199,6 +199,8 @@ fn main() {
             if pid == 0 {
                 libc::close(fds[0]);
                 libc::alarm(60);
+                // panics of the code under test are caught and reported as flags; keep stderr quiet
+                std::panic::set_hook(Box::new(|_| {}));
                 let r = std::panic::catch_unwind(|| {
                     if mode == "H" {
                         let n = v.first().copied().unwrap_or(0) as usize;
